@@ -256,6 +256,14 @@ def c18_variants(sc, seed):
     b["model"]["class"] = "psi"
     b["model"]["psi"] = random.Random(seed).choice([1.0, 1, "1_0"])
     b["model"]["restoration_tau"] = int(sc["model"]["dt"])
+    if random.Random(seed + 2).random() < 0.3:
+        # an input kept without any inventory (0 days: accepted with a warning, treated as the minimum of 2 steps)
+        secs_ = scen.labels(sc["table"])[1]
+        dd = {s_: (sc["model"].get("inventory_dict") or {}).get(s_, sc["model"]["main_inv_dur"]) for s_ in secs_}
+        dd[secs_[seed % len(secs_)]] = 0
+        a["model"]["inventory_dict"] = dict(dd)
+        b["model"]["inventory_dict"] = dict(dd)
+        a["model"]["inf_sect"] = b["model"]["inf_sect"] = None
     if random.Random(seed + 1).random() < 0.5:
         # the same restoration time given per input, as a dictionary
         b["model"]["restoration_tau"] = {s_: int(sc["model"]["dt"]) for s_ in scen.labels(sc["table"])[1]}
@@ -490,3 +498,30 @@ def long_loop_c05(sc, base, seed):
         tw["model"]["inf_sect"] = [scen.labels(tw["table"])[1][0]]          # make sure one input has infinite inventories
     tw["events"] = []
     return long_loop(tw, base, seed * 5, pid="C05")
+
+
+def event_reuse(sc, base, seed, pid="C08"):
+    """the same Event objects tracked by two simulations one after the other: the second run is the run of fresh events"""
+    out = []
+    if not sc["events"] or "error" in base:
+        return out
+    try:
+        shared = {}
+        evs = [scen.build_event(e, shared=shared) for e in sc["events"]]
+        runs = []
+        for _ in range(2):
+            sim = Simulation(scen.build_model(sc["table"], sc["model"]), n_temporal_units_to_sim=sc["T"],
+                             register_stocks=sc["sim"].get("register_stocks", False))
+            for ev in evs:
+                sim.add_event(ev)
+            runs.append(run_records(sc, sim=sim))
+    except Exception as e:
+        out.append(viol(pid, 0, f"Event objects cannot be used in two simulations: {type(e).__name__}: {str(e)[:120]}"))
+        return out
+    out += cmp_records(pid, runs[0], runs[1], "the same Event objects used in a second simulation (bitwise)")
+    out += cmp_records(pid, base, runs[1], "Event objects already used in another simulation vs the events of the base run", rtol=1e-12, atol_scale=1e-12)
+    return out
+
+
+def event_reuse_c11(sc, base, seed):
+    return event_reuse(sc, base, seed, pid="C11")
